@@ -112,6 +112,8 @@ def generate(rng, tier, run):
             f['latex_context'] = rng.choice(['default', 'small'])
         return f
     ops.append(['root', root_fields()])
+    if rng.random() < 0.3:
+        ops[0][1]['@subclass'] = True
     other_fields = [k for k in DOM if k not in MATH_CONE]
     while len(ops) < n_ops:
         x = rng.random()
@@ -139,7 +141,20 @@ def generate(rng, tier, run):
                 ch = {}
             else:
                 ch = {'@repeat': rng.sample(sorted(DOM), rng.randint(1, 3))}
-            ops.append(['derive', i, ch])
+            if rng.random() < 0.08:
+                ch['sim_flag'] = rng.randrange(3)          # only meaningful for the subclass
+            z = rng.random()
+            if z < 0.12:
+                # the same derivations as the parsers make them: through parsing-state deltas
+                ops.append(['derive_delta', i, 'enter_math', rng.choice(DOM['math_mode_delimiter']), {}])
+            elif z < 0.2:
+                ops.append(['derive_delta', i, 'leave_math', None, {}])
+            elif z < 0.26 and '@repeat' not in ch:
+                ops.append(['derive_delta', i, 'set_attrs', None, ch])
+            elif z < 0.3 and '@repeat' not in ch:
+                ops.append(['derive_delta', i, 'chain', rng.choice(DOM['math_mode_delimiter']), ch])
+            else:
+                ops.append(['derive', i, ch])
     probes = [''.join(rng.choice(ALPHABET) for _ in range(rng.randint(2, 8))) for _ in range(6)]
     # seeded whole-parse probes: snippets whose reading depends on many different fields
     parse_probes = [''.join(rng.choice(PARSE_SNIPPETS) for _ in range(rng.randint(2, 5))) for _ in range(2)]
@@ -179,6 +194,24 @@ def contexts():
     small.freeze()
     _ctx_cache.update({'none': None, 'default': get_default_latex_context_db(), 'small': small})
     return _ctx_cache
+
+
+_cls_cache = {}
+
+
+def sim_subclass():
+    """A ParsingState subclass with one more field, the way _fields / set_fields invite."""
+    if 'cls' not in _cls_cache:
+        from pylatexenc.latexnodes import ParsingState
+
+        class SimParsingState(ParsingState):
+            _fields = tuple(ParsingState._fields) + ('sim_flag',)
+
+            def set_fields(self, sim_flag=0, **kwargs):
+                super(SimParsingState, self).set_fields(**kwargs)
+                self.sim_flag = sim_flag
+        _cls_cache['cls'] = SimParsingState
+    return _cls_cache['cls']
 
 
 def decode(field, v):
@@ -266,6 +299,28 @@ def parse_dump(ps, s, tolerant):
     return res, w.sim_clock[0]
 
 
+_walker_cache = {}
+
+
+def derive_by_delta(ps, how, delim, changes):
+    from pylatexenc.latexnodes import (ParsingStateDelta, ParsingStateDeltaEnterMathMode,
+                                       ParsingStateDeltaLeaveMathMode, ParsingStateDeltaChained)
+    from pylatexenc.latexwalker import LatexWalker
+    if 'w' not in _walker_cache:
+        _walker_cache['w'] = LatexWalker('x', latex_context=contexts()['small'], tolerant_parsing=False)
+    w = _walker_cache['w']
+    if how == 'enter_math':
+        delta = ParsingStateDeltaEnterMathMode(math_mode_delimiter=delim)
+    elif how == 'leave_math':
+        delta = ParsingStateDeltaLeaveMathMode()
+    elif how == 'set_attrs':
+        delta = ParsingStateDelta(set_attributes=changes)
+    else:
+        delta = ParsingStateDeltaChained([ParsingStateDeltaEnterMathMode(math_mode_delimiter=delim), None,
+                                          ParsingStateDelta(set_attributes=changes)])
+    return delta.get_updated_parsing_state(ps, w)
+
+
 class Violation(Exception):
     def __init__(self, invariant, **info):
         Exception.__init__(self, invariant)
@@ -306,7 +361,7 @@ def execute(program):
     def compare_with_fresh(ps, opi, idx, strings):
         fields = ps.get_fields()
         try:
-            fresh = ParsingState(**fields)
+            fresh = type(ps)(**fields)
         except Exception as e:
             raise Violation('fresh-constructor-fails', op_index=opi, state=idx,
                             observed=repr(e), expected='constructor accepts get_fields() of a derived state')
@@ -364,8 +419,12 @@ def execute(program):
                 if len(live) >= MAX_LIVE:
                     outcome = 'skipped'
                 else:
-                    fields = {k: decode(k, v) for k, v in op[1].items()}
-                    ps = ParsingState(**fields)
+                    fields = {k: decode(k, v) for k, v in op[1].items() if not k.startswith('@')}
+                    if op[1].get('@subclass'):
+                        ps = sim_subclass()(**fields)
+                        stats.inc('probe:subclass-root')
+                    else:
+                        ps = ParsingState(**fields)
                     b = compare_with_fresh(ps, opi, len(live), base_strings)
                     live.append({'ps': ps, 'depth': 0, 'pattern': [], 'behaviour': b,
                                  'strings': base_strings})
@@ -376,34 +435,67 @@ def execute(program):
                 j = op[1] % len(live)
                 compare_with_fresh(live[j]['ps'], opi, j, [op[2]])
                 stats.inc('op:probe')
-            elif kind == 'derive':
+            elif kind in ('derive', 'derive_delta'):
                 j = op[1] % len(live)
                 parent = live[j]
                 if len(live) >= MAX_LIVE:
                     outcome = 'skipped'
                 else:
-                    ch = dict(op[2])
+                    ch = dict(op[2] if kind == 'derive' else op[4])
                     if '@repeat' in ch:
                         ch = {k: before[j][k] for k in ch['@repeat']}
                         stats.inc('probe:derive-repeats-current-values')
+                    if 'sim_flag' not in before[j]:
+                        ch.pop('sim_flag', None)
+                    steps = [ch]
+                    if kind == 'derive_delta':
+                        how = op[2]
+                        enter = {'in_math_mode': True, 'math_mode_delimiter': op[3]}
+                        leave = {'in_math_mode': False, 'math_mode_delimiter': None}
+                        steps = {'enter_math': [enter], 'leave_math': [leave], 'set_attrs': [ch],
+                                 'chain': [enter, ch]}[how]
+                        stats.inc('op:derive_delta-' + how)
                     changes = {k: decode(k, v) for k, v in ch.items()}
-                    want = predict_fields(before[j], ch)
-                    effective = sorted(k for k in ch if D._plain(ch[k]) != before[j][k])
+                    want = before[j]
+                    for st_ch in steps:
+                        want = predict_fields(want, st_ch)
+                    merged = {}
+                    for st_ch in steps:
+                        merged.update(st_ch)
+                    effective = sorted(k for k in merged if D._plain(merged[k]) != before[j][k])
                     try:
-                        child = parent['ps'].sub_context(**changes)
+                        if kind == 'derive':
+                            child = parent['ps'].sub_context(**changes)
+                        else:
+                            child = derive_by_delta(parent['ps'], op[2], op[3], changes)
+                            if child is parent['ps']:
+                                # "might be the same object if no changes need to be applied"
+                                if plain_fields(child) != want:
+                                    raise Violation('derived-fields-as-requested', op_index=opi, state=j,
+                                                    field='<delta returned the state itself>',
+                                                    observed=plain_fields(child), expected=want)
+                                stats.inc('outcome:delta-returned-same-state')
+                                trace.append([kind, 'same-state'])
+                                continue
+                    except Violation:
+                        raise
                     except Exception as e:
                         # legitimate only if the constructor fails on the same field values
                         f = parent['ps'].get_fields()
                         f.update(changes)
                         try:
-                            ParsingState(**f)
+                            type(parent['ps'])(**f)
                         except Exception:
                             stats.inc('outcome:constructor-refuses-too')
                             trace.append([kind, 'refused-like-constructor'])
                             continue
                         raise Violation('derivation-refused', op_index=opi, state=j,
                                         observed=repr(e), expected='a derived state')
-                    stats.inc('op:derive')
+                    if kind == 'derive':
+                        stats.inc('op:derive')
+                    if type(child) is not type(parent['ps']):
+                        raise Violation('derived-fields-as-requested', op_index=opi, state=j, field='<class>',
+                                        observed=type(child).__name__, expected=type(parent['ps']).__name__)
                     got = plain_fields(child)
                     if got != want:
                         k = [k for k in want if got.get(k) != want[k]][0]
@@ -454,7 +546,7 @@ def execute(program):
                     f = parent['ps'].get_fields()
                     f.update(bad)
                     try:
-                        ParsingState(**f)
+                        type(parent['ps'])(**f)
                         fresh_raises = False
                     except Exception:
                         fresh_raises = True
@@ -517,6 +609,19 @@ def shrink_candidates(program):
             if op[1] > 9:
                 for j in range(10):
                     yield repl(['derive', j, op[2]])
+        if op[0] == 'derive_delta':
+            eq = {'enter_math': {'in_math_mode': True, 'math_mode_delimiter': op[3]},
+                  'leave_math': {'in_math_mode': False, 'math_mode_delimiter': None},
+                  'set_attrs': op[4]}.get(op[2])
+            if eq is not None:
+                yield repl(['derive', op[1], eq])
+            if op[1] > 9:
+                for j in range(10):
+                    yield repl(['derive_delta', j] + op[2:])
+        if op[0] == 'root' and op[1].get('@subclass'):
+            f = dict(op[1])
+            del f['@subclass']
+            yield repl(['root', f])
         if op[0] == 'probe' and len(op[2]) > 1:
             for k in range(len(op[2])):
                 yield repl(['probe', op[1], op[2][:k] + op[2][k + 1:]])
@@ -524,7 +629,8 @@ def shrink_candidates(program):
 
 def finding_key(program, violation):
     return '%s|%s' % (violation['invariant'],
-                      ','.join(sorted(set(k for o in program['ops'] if o[0] == 'derive' for k in o[2]))))
+                      ','.join(sorted(set(k for o in program['ops'] if o[0] in ('derive', 'derive_delta')
+                                          for k in (o[2] if o[0] == 'derive' else o[4])))))
 
 
 RULE = ("programs are seeded histories (6-16 operations, up to 30 in the thorough tier) of ParsingState "
